@@ -13,7 +13,9 @@
 (***************************************************************************)
 EXTENDS Integers, Sequences, FiniteSets, TLC
 
-CONSTANTS Names
+CONSTANTS Names,
+          Fixes     \* "inout": a signature input that is also an output is filed once, under inputs (F25 repaired; before, the
+                    \*          second pop raised KeyError)
 
 VARIABLES ref, tgt, ins, outs, consts,      \* scenario
           result, gin, gout, gconst, ginter, pc, why
@@ -39,7 +41,8 @@ Pop(names, grp, nextpc, site) ==
   ELSE /\ pc' = "raised" /\ why' = site /\ UNCHANGED <<result, grp>>
 
 PopInputs == pc = "inputs" /\ Pop(ins, gin, "outputs", "keyerror_input") /\ UNCHANGED <<ref, tgt, ins, outs, consts, gout, gconst, ginter>>
-PopOutputs == pc = "outputs" /\ Pop(outs, gout, "constants", "keyerror_output") /\ UNCHANGED <<ref, tgt, ins, outs, consts, gin, gconst, ginter>>
+OutsToFile == IF "inout" \in Fixes THEN outs \ ins ELSE outs
+PopOutputs == pc = "outputs" /\ Pop(OutsToFile, gout, "constants", "keyerror_output") /\ UNCHANGED <<ref, tgt, ins, outs, consts, gin, gconst, ginter>>
 PopConstants == pc = "constants" /\ Pop(consts, gconst, "rest", "keyerror_constant") /\ UNCHANGED <<ref, tgt, ins, outs, consts, gin, gout, ginter>>
 Rest == /\ pc = "rest" /\ ginter' = result /\ result' = {} /\ pc' = "done"
         /\ UNCHANGED <<ref, tgt, ins, outs, consts, gin, gout, gconst, why>>
@@ -53,9 +56,9 @@ Groups == <<gin, gout, gconst, ginter>>
 PartitionOK == pc = "done" =>
   /\ \A i, j \in 1..4 : i # j => Groups[i] \cap Groups[j] = {}
   /\ gin \cup gout \cup gconst \cup ginter = ref \cap tgt
-  /\ gin = ins /\ gout = outs /\ gconst = consts
+  /\ gin = ins /\ gout = outs \ ins /\ gconst = consts
 \* when does the partition exist at all: the API returns iff no pop fails; for a quantized version of the reference model
-\* (every reference tensor keeps its name, inputs are not outputs) it always returns
-QuantizedPair == ref \subseteq tgt /\ ins \cap outs = {}
+\* (every reference tensor keeps its name) it always returns - also when an input is returned as an output
+QuantizedPair == ref \subseteq tgt
 ReturnsForQuantizedPair == QuantizedPair => pc # "raised"
 =============================================================================
